@@ -5,10 +5,10 @@ from vf.xh import Ob
 PREAMBLE = '''\
 import sys
 from vf import skel as _sk
-from checks.C18 import total_ok, mut_ok, ALPH, SCAFFOLDS, PROGRAMS
+from checks.C18 import total_ok, mut_ok, deep_ok, ALPH, SCAFFOLDS, PROGRAMS
 '''
 
-ALPH = "()[]{}\"\\;#'`~@^:.,| \n\ta1_-*!éfbr /=<x0N"
+ALPH = "()[]{}\"\\;#'`~@^:.,| \n\ta1_-*!éfbr /=<x0N\r"
 
 SCAFFOLDS = ["{h}", "({h})", "[{h}]", "{{{h}}}", "#{{{h}}}", "#({h})", "\"{h}\"", "f\"{h}\"", "f\"{{{h}}}\"", "f\"{{x {h}}}\"", "f\"{{x :{h}}}\"", "#[[{h}]]", "#[a[{h}]a]",
              "#[f[{h}]f]", "'{h}", "`{h}", "~{h}", "~@{h}", "#*{h}", "#**{h}", "#^{h} x", "#^ x {h}", "#_{h} y", ";{h}\nx", "(a {h} b)", "#{h}", ":{h}", "a.{h}", ".{h}", "1{h}", "b\"{h}\"",
@@ -18,6 +18,40 @@ PROGRAMS = [
     "(defn f [a #* b] (+ a 1))", "(setv x \"s\\n\" y b\"q\")", "`(a ~b ~@c)", "#[[text]] 'q", "f\"a{x !r :>{w}}b\"", "{\"k\" [1 2.5 3j] :kw #{1}}", "(x.y.z #** d) ; c\n#_ skipped 5",
     "#^ int x #(1 2)", "(. a b [c])", "#[f[{x}]f]",
 ]
+
+
+def deep_texts():
+    """Deeply nested inputs: reading must stay fast (and terminate) at depths ordinary code never reaches."""
+    out = []
+    t = "x"
+    for _ in range(24):
+        t = "{x :" + t + "}" if t != "x" else "{x}"
+    out.append('f"' + t + '"')                     # format specs nested 24 deep
+    t = "x"
+    for _ in range(13):
+        t = 'f"{' + t + '}"'
+    out.append(t)                                  # f-strings inside the fields of f-strings, 13 deep
+    out.append("(" * 60 + "x" + ")" * 60)
+    out.append("'" * 60 + "x")
+    out.append("#[" + "=" * 200 + "[a]" + "=" * 199 + "]" + "=" * 200 + "]")
+    out.append("(a\r\n b\r\n (c\r\n  d))\r\n\r\n(e))\r\n")   # an error on a late line of a CRLF source
+    out.append("(setv x 1)\r\n(print x")
+    out.append("; c\r\n\r\n\"unterminated")
+    out.append("f\"" + "{{" * 300 + "\"")
+    out.append("#_ " * 100 + "x")
+    return out
+
+
+def deep_ok(i, why=None):
+    from vf import skel
+
+    if why is None and skel.EXPLAIN[0]:
+        del skel.LAST_WHY[:]
+        why = skel.LAST_WHY
+    r = strsym.untraced(_total, deep_texts()[i])
+    if r is not None and why is not None:
+        why.append(r)
+    return r is None
 
 
 def _total(text):
@@ -83,6 +117,9 @@ def spec(tier, seed):
         L = ["def %s(pos: int, op: int, ci: int) -> bool:" % fn, '    """', "    post: _", '    """',
              "    return mut_ok(%d, _sk.box(pos, 0, %d), _sk.box(op, 0, 2), _sk.box(ci, 0, %d))" % (pi, len(p) - 1, (len(ALPH) - 1) if tier == "thorough" else 11)]
         obs.append(Ob(fn, "\n".join(L), sample="mutations (delete / insert / replace one character at every position) of %r" % p, group="mutation"))
+    nd = len(deep_texts())
+    L = ["def hdeep(i: int) -> bool:", '    """', "    post: _", '    """', "    return deep_ok(_sk.box(i, 0, %d))" % (nd - 1)]
+    obs.append(Ob("hdeep", "\n".join(L), sample="deeply nested / long inputs: %r" % ([t[:40] + ("..." if len(t) > 40 else "") for t in deep_texts()],), group="deep"))
     tw = "\n".join(["def twin0(i0: int) -> bool:", '    """', "    post: _", '    """', "    total_ok(1, _sk.pick_str(ALPH, [i0]))", "    return False"])
     obs.append(Ob("twin0", tw, twin=True, group="twin"))
     return {
@@ -96,7 +133,8 @@ def spec(tier, seed):
         "functions_encoded": ["hy.read_many -> hy.reader.hy_reader.HyReader.parse / try_parse_one_form and every reader_for handler", "hy.reader.reader.Reader (getc, peekc, slurp_space, read_ident, chars)",
                               "hy.reader.exceptions"],
         "bounds": "whole inputs of length 1..%d over the %d-character alphabet %r; %d scaffolds %r with a hole of length 0..%d; single-character delete/insert/replace mutations at every position of "
-                  "%d valid programs" % (maxlen + 1, len(ALPH), ALPH, len(SCAFFOLDS) - 1, SCAFFOLDS[1:], maxlen, len(PROGRAMS)),
+                  "%d valid programs; %d deeply nested or long inputs (format specs nested 24 deep, f-strings in fields 13 deep, 60 parens, CRLF sources with a late error, ...), each under a 5 s watchdog" % (
+                      maxlen + 1, len(ALPH), ALPH, len(SCAFFOLDS) - 1, SCAFFOLDS[1:], maxlen, len(PROGRAMS), len(deep_texts())),
         "outside": "longer texts; characters outside the alphabet (in particular 'every code point'); reader macros defined by the program",
         "stubs": ["reader call executed under crosshair.tracers.NoTracing with a SIGALRM watchdog"],
         "assumptions": ["allowed outcomes: a list of models, LexException or PrematureEndOfInput; anything else (including RecursionError) is a violation"],
